@@ -1429,3 +1429,176 @@ def _lookup(self, callee, name):
 
 
 M.Models.lookup = _lookup
+
+
+# --------------------------------------------------------------------------- option strings as character sets (C14 R14.7)
+# StrV("charset", chars={char: bit}) : a string about which only the presence of a few letters is known, each presence
+# being a boolean function (truth-table bit) of the option atoms.  Everything else about the string is arbitrary.
+
+def charset(presence):
+    return StrV("charset", chars=dict(presence))
+
+
+def _cs_of(I, st, v):
+    v = deref(I, st, v)
+    if isinstance(v, StrV) and v.skind == "charset":
+        return v.chars
+    if isinstance(v, OpaqueV) and v.ty == "charset":
+        return dict(v.term)
+    if isinstance(v, VecV) and isinstance(v.summary, OpaqueV) and v.summary.ty == "charset":
+        return dict(v.summary.term)
+    if isinstance(v, IterV) and isinstance(v.end, OpaqueV) and v.end.ty == "charset" and not v.stages:
+        return dict(v.end.term)
+    return None
+
+
+def _cs_opaque(p):
+    from .domain import bit_deps
+    d = frozenset()
+    for b in p.values():
+        d |= bit_deps(b)
+    return OpaqueV("charset", tuple(sorted(p.items(), key=lambda kv: kv[0])), d)
+
+
+_o_chars = M.m_chars
+
+
+def m_chars_cs(I, st, c, args, body, t):
+    p = _cs_of(I, st, args[0])
+    if p is not None:
+        o = _cs_opaque(p)
+        return st, IterV(None, unknown=True, deps=o.deps, end=o)
+    return _o_chars(I, st, c, args, body, t)
+
+
+_o_collect = M.m_collect
+
+
+def m_collect_cs(I, st, c, args, body, t):
+    p = _cs_of(I, st, args[0]) if isinstance(args[0], IterV) else None
+    if p is not None:
+        tys = (body.locals[t["dest"]["local"]]["ty"].get("s", "") if body is not None and t.get("dest") else "")
+        if tys.endswith("String") and "Vec" not in tys:
+            return st, charset(p)
+        o = _cs_opaque(p)
+        return st, VecV(None, IntV("usize", deps=o.deps), o)
+    return _o_collect(I, st, c, args, body, t)
+
+
+_o_contains = M.m_contains
+
+
+def _presence(p, x):
+    from .domain import bit_deps, bit_is_const
+    if isinstance(x, IntV) and x.is_const():
+        ch = chr(x.lo)
+        if ch in p:
+            b = p[ch]
+            if bit_is_const(b):
+                return BoolV(bool(b))
+            return BoolV(None, None, bit_deps(b), None, b)
+        return BoolV(None, None, frozenset([("opt", "other characters")]))
+    if isinstance(x, StrV) and x.skind == "lit" and len(x.text) == 1:
+        return _presence(p, IntV.const("char", ord(x.text)))
+    return BoolV(None, None, frozenset([("opt", "?")]))
+
+
+def m_contains_cs(I, st, c, args, body, t):
+    p = _cs_of(I, st, args[0])
+    if p is not None:
+        return st, _presence(p, deref(I, st, args[1]))
+    s = deref(I, st, args[0])
+    if isinstance(s, StrV) and s.skind == "line":
+        I.warn("line-use", "contains() on the input line (depends on decoration)")
+        return st, BoolV(None, None, frozenset([("decoration",)]))
+    if isinstance(s, StrV):
+        x = deref(I, st, args[1])
+        if s.skind == "lit" and isinstance(x, IntV) and x.is_const():
+            return st, BoolV(chr(x.lo) in s.text)
+        if s.skind == "lit" and isinstance(x, StrV) and x.skind == "lit":
+            return st, BoolV(x.text in s.text)
+        return st, BoolV(None, None, deps_of(s) | deps_of(x))
+    return _o_contains(I, st, c, args, body, t)
+
+
+def m_concat_cs(I, st, c, args, body, t):
+    from .domain import bit_or
+    v = deref(I, st, args[0])
+    if isinstance(v, VecV) and v.elems is not None:
+        ps = [_cs_of(I, st, e) for e in v.elems]
+        if ps and all(p is not None for p in ps):
+            out = {}
+            for p in ps:
+                for ch, b in p.items():
+                    out[ch] = bit_or(out.get(ch, 0), b)
+            if c.get("name") == "join" and len(args) > 1:
+                sep = deref(I, st, args[1])
+                if isinstance(sep, StrV) and sep.skind == "lit":
+                    if len(ps) > 1:
+                        for ch in sep.text:
+                            if ch in out:
+                                out[ch] = 1
+                else:
+                    return M.m_str_opaque(I, st, c, args, body, t)
+            return st, charset(out)
+    return M.m_str_opaque(I, st, c, args, body, t)
+
+
+_o_all_any = M.m_all_any
+
+
+def m_all_any_cs(I, st, c, args, body, t):
+    from .domain import bit_and, bit_deps, bit_is_const, bit_or, bit_xor
+    it = args[0] if isinstance(args[0], IterV) else deref(I, st, args[0])
+    p = _cs_of(I, st, it) if isinstance(it, IterV) else None
+    if p is not None:
+        is_all = c.get("name") == "all"
+        # the closure must be decided on every listed letter, and constant on all other characters
+        others = []
+        for probe in ("\x00", "~", "Z"):
+            if probe in p:
+                continue
+            st, r = I.call_value(st, args[1], [IntV.const("char", ord(probe))])
+            others.append(r.val if isinstance(r, BoolV) else None)
+        neutral = (True if is_all else False)
+        if any(o is not neutral for o in others):
+            return st, BoolV(None, None, frozenset([("opt", "other characters")]))
+        acc = 1 if is_all else 0
+        for ch, b in sorted(p.items()):
+            st, r = I.call_value(st, args[1], [IntV.const("char", ord(ch))])
+            if not isinstance(r, BoolV) or r.val is None:
+                return st, BoolV(None, None, frozenset([("opt", "?")]))
+            if is_all and r.val is False:
+                acc = bit_and(acc, bit_xor(b, 1))      # fails iff the letter is present
+            elif not is_all and r.val is True:
+                acc = bit_or(acc, b)
+        if bit_is_const(acc):
+            return st, BoolV(bool(acc))
+        return st, BoolV(None, None, bit_deps(acc), None, acc)
+    return _o_all_any(I, st, c, args, body, t)
+
+
+def install_charset(models):
+    E = models.exact
+    E["core::str::<impl str>::chars"] = m_chars_cs
+    E["std::iter::Iterator::collect"] = m_collect_cs
+    E["core::slice::<impl [T]>::contains"] = m_contains_cs
+    E["core::str::<impl str>::contains"] = m_contains_cs
+    E["std::slice::<impl [T]>::concat"] = m_concat_cs
+    E["std::slice::<impl [T]>::join"] = m_concat_cs
+    for k in ("<std::slice::Iter<'a, T> as std::iter::Iterator>::all", "<std::slice::Iter<'a, T> as std::iter::Iterator>::any",
+              "std::iter::Iterator::all", "std::iter::Iterator::any"):
+        E[k] = m_all_any_cs
+    E["<std::str::Chars<'a> as std::iter::Iterator>::all"] = m_all_any_cs
+    E["<std::str::Chars<'a> as std::iter::Iterator>::any"] = m_all_any_cs
+
+
+_o_init2 = M.Models.__init__
+
+
+def _init_cs(self):
+    _o_init2(self)
+    install_charset(self)
+
+
+M.Models.__init__ = _init_cs
